@@ -5,18 +5,25 @@
 # applied there, the property's quick check is run with VERIF_REPO pointing at the worktree, and the
 # file is restored. "fail" mutants must produce a VIOLATION line, "pass" mutants (harmless
 # refactors) must not. Evidence and replays of mutated runs go to scratch directories.
-#   selftest/run.sh [<egrep filter on "property file note">] [<parallel jobs, default 1>]
+#   selftest/run.sh [<egrep filter on "property file note">]
+# SELFTEST_PART=k/n runs only every n-th mutant starting with the k-th (1-based): several parts may run side by side,
+# each on its own worktree and scratch directories.
 cd "$(dirname "$0")/.."
 export GOFLAGS=-mod=mod GOPROXY=off GOSUMDB=off GOTOOLCHAIN=local
 FILTER="${1:-.}"
+PART_K=1; PART_N=1
+if [ -n "${SELFTEST_PART:-}" ]; then PART_K="${SELFTEST_PART%/*}"; PART_N="${SELFTEST_PART#*/}"; fi
 WT=$(mktemp -d /tmp/selftestwt.XXXXXX); rmdir "$WT"
+EV=/tmp/selftest-evidence.$$; RP=/tmp/selftest-replays.$$
 git -C /repo worktree add --detach "$WT" HEAD >/dev/null 2>&1 || { echo "cannot create worktree"; exit 2; }
-trap 'git -C /repo worktree remove --force "$WT" >/dev/null 2>&1; rm -rf /tmp/selftest-evidence /tmp/selftest-replays' EXIT
-ok=0; bad=0
+trap 'git -C /repo worktree remove --force "$WT" >/dev/null 2>&1; rm -rf "$EV" "$RP"' EXIT
+ok=0; bad=0; idx=0
 while IFS=$'\t' read -r prop file subst expect note; do
   [ -z "$prop" ] && continue
   case "$prop" in \#*) continue;; esac
   echo "$prop $file $note" | grep -qE "$FILTER" || continue
+  idx=$((idx+1))
+  [ $(( (idx - PART_K) % PART_N )) -eq 0 ] || continue
   before=$(md5sum "$WT/$file" | cut -d' ' -f1)
   # packages that depend on the harmony bls cgo library do not build even unmodified in this sandbox;
   # for those the compile check is left to gocv's own type check of the package
@@ -30,11 +37,11 @@ while IFS=$'\t' read -r prop file subst expect note; do
     echo "SELFTEST-BROKEN (mutant does not compile): $prop $file $note"; bad=$((bad+1))
     git -C "$WT" checkout -- "$file"; continue
   fi
-  out=$(VERIF_REPO="$WT" VERIF_EVIDENCE_DIR=/tmp/selftest-evidence VERIF_REPLAY_DIR=/tmp/selftest-replays VERIF_NO_REPLAY=1 ./check "$prop" --tier quick 2>&1)
+  out=$(VERIF_REPO="$WT" VERIF_EVIDENCE_DIR="$EV" VERIF_REPLAY_DIR="$RP" VERIF_NO_REPLAY=1 ./check "$prop" --tier quick 2>&1)
   git -C "$WT" checkout -- "$file"
   if echo "$out" | grep -q '^VIOLATION'; then got=fail; else got=pass; fi
   if [ "$got" = "$expect" ]; then
-    ok=$((ok+1)); echo "ok   [$expect] $prop $note :: $(echo "$out" | grep -m1 '^VIOLATION' | sed 's/.*replays\///')"
+    ok=$((ok+1)); echo "ok   [$expect] $prop $note :: $(echo "$out" | grep -m1 '^VIOLATION' | sed 's/.*replays[^/]*\///')"
   else
     bad=$((bad+1)); echo "MISS [$expect, got $got] $prop $file $note"
   fi
